@@ -38,20 +38,21 @@ struct Stream {
     ends: Vec<usize>,
     /// responses each message owes
     resps: Vec<Vec<Vec<Leaf>>>,
-    /// the same as bytes (from a reference execution), and whether they fit N
-    ref_bytes: Vec<Vec<u8>>,
+    /// the same as bytes (from a reference execution), one entry per response, and whether
+    /// all responses of the message together fit N
+    ref_resps: Vec<Vec<Vec<u8>>>,
     fits: Vec<bool>,
 }
 
 /// Trace oracle.  Returns Err((clause, detail)).
 ///
-/// `s.ref_bytes[i]` are the response bytes message i owes (taken from a reference
+/// `s.ref_resps[i]` are the responses message i owes (bytes taken from a reference
 /// execution through `run`, decoded and matched against the generator-side
-/// expectation beforehand); `s.fits[i]` says whether they fit the N-byte response
-/// buffer.  Between two reads the transport must have been given exactly the
-/// responses of the messages completed by the earlier read, flushed; for a message
-/// whose answer does not fit (an error is reported instead) the bytes written are
-/// not constrained, but they must not disturb the answers of other messages.
+/// expectation beforehand); `s.fits[i]` says whether together they fit the N-byte
+/// response buffer.  Between two reads the transport must have been given exactly
+/// the responses of the messages completed by the earlier read, flushed; of a
+/// message whose answers do not fit (an error is reported instead) any answer may
+/// be missing, but nothing that is not a complete answer may be written.
 fn check_trace(s: &Stream, out: &RunOut, fault_at: Option<usize>) -> Result<(u64, u64), (String, String)> {
     let mut delivered = 0usize;
     let mut w: Vec<u8> = Vec::new(); // written since the last read
@@ -61,46 +62,42 @@ fn check_trace(s: &Stream, out: &RunOut, fault_at: Option<usize>) -> Result<(u64
     let mut resp_seen = 0u64;
     let mut next_msg = 0usize;
     let mut proc_ret: Option<(bool, u32)> = None;
-    // accounts for the bytes in `w` against the messages completed so far.  Where an oversized
-    // answer allows arbitrary bytes, every placement of the following answers is tried.
-    fn place(w: &[u8], pos: usize, slack: bool, items: &[Option<&[u8]>], budget: &mut u32) -> bool {
+    // accounts for the bytes in `w` against the messages completed so far: the answers of a
+    // message that fits must all be there; of a message whose answers do not all fit the N-byte
+    // buffer any of its answers may be missing (an error is reported instead), but nothing
+    // else may be written - no fragment of an answer, no other bytes
+    fn place(w: &[u8], pos: usize, items: &[(bool, &[u8])], budget: &mut u32) -> bool {
         if *budget == 0 {
-            return true; // search cut off: do not turn a timeout into a violation
+            return true; // search cut off: never turn a timeout into a violation
         }
         *budget -= 1;
         match items.first() {
-            None => pos == w.len() || slack,
-            Some(None) => place(w, pos, true, &items[1..], budget),
-            Some(Some(r)) => {
-                if r.is_empty() {
-                    return place(w, pos, slack, &items[1..], budget);
+            None => pos == w.len(),
+            Some((must, r)) => {
+                if w.len() >= pos + r.len() && &w[pos..pos + r.len()] == *r && place(w, pos + r.len(), &items[1..], budget) {
+                    return true;
                 }
-                if !slack {
-                    return w.len() >= pos + r.len() && &w[pos..pos + r.len()] == *r && place(w, pos + r.len(), false, &items[1..], budget);
-                }
-                let mut p = pos;
-                while p + r.len() <= w.len() {
-                    if &w[p..p + r.len()] == *r && place(w, p + r.len(), false, &items[1..], budget) {
-                        return true;
-                    }
-                    p += 1;
-                }
-                false
+                !*must && place(w, pos, &items[1..], budget)
             }
         }
     }
     let settle = |w: &[u8], next_msg: &mut usize, delivered: usize, reads: u64, resp_seen: &mut u64| -> Result<(), (String, String)> {
         let done = s.ends.iter().filter(|end| **end <= delivered).count();
-        let items: Vec<Option<&[u8]>> = (*next_msg..done).map(|m| if s.fits[m] { Some(&s.ref_bytes[m][..]) } else { None }).collect();
+        let mut items: Vec<(bool, &[u8])> = Vec::new();
+        for m in *next_msg..done {
+            for r in &s.ref_resps[m] {
+                items.push((s.fits[m], &r[..]));
+            }
+        }
         let mut budget = 200_000u32;
-        if !place(w, 0, false, &items, &mut budget) {
-            let owed: Vec<String> = items.iter().map(|i| i.map(|r| esc(r)).unwrap_or_else(|| "<oversized: any bytes>".into())).collect();
-            let total_owed: usize = items.iter().map(|i| i.map(|r| r.len()).unwrap_or(0)).sum();
-            let clause = if w.len() < total_owed {
+        if !place(w, 0, &items, &mut budget) {
+            let owed: Vec<String> = items.iter().map(|(must, r)| format!("{}{}", if *must { "" } else { "(optional: its message overflows the buffer) " }, esc(r))).collect();
+            let must_total: usize = items.iter().filter(|i| i.0).map(|i| i.1.len()).sum();
+            let clause = if w.len() < must_total {
                 "read-before-due-response-was-written"
             }
-            else if items.iter().all(|i| i.map(|r| r.is_empty()).unwrap_or(false)) {
-                "wrote-more-than-the-responses"
+            else if items.is_empty() {
+                "wrote-although-no-response-is-due"
             }
             else {
                 "written-bytes-are-not-the-due-responses"
@@ -110,7 +107,7 @@ fn check_trace(s: &Stream, out: &RunOut, fault_at: Option<usize>) -> Result<(u64
                 format!("before read #{}: the completed messages owe {:?}, the transport was given \"{}\" since the previous read", reads + 1, owed, esc(w)),
             ));
         }
-        *resp_seen += items.iter().filter(|i| i.map(|r| !r.is_empty()).unwrap_or(false)).count() as u64;
+        *resp_seen += items.iter().filter(|i| i.0).count() as u64;
         *next_msg = done;
         Ok(())
     };
@@ -212,7 +209,7 @@ fn make_stream(gen: &Gen, rng: &mut Rng, acc: &mut Acc) -> Stream {
         }
         resps.push(r);
     }
-    Stream { bytes, ends, resps, ref_bytes: vec![], fits: vec![] }
+    Stream { bytes, ends, resps, ref_resps: vec![], fits: vec![] }
 }
 
 fn shard(ctx: &Ctx, ifaces: &[&'static IfaceDesc], shard: usize, cases: u64) -> Acc {
@@ -264,18 +261,24 @@ fn shard(ctx: &Ctx, ifaces: &[&'static IfaceDesc], shard: usize, cases: u64) -> 
             }
             per.push(cur);
             let mut ok = per.len() == s.ends.len();
+            let mut split: Vec<Vec<Vec<u8>>> = Vec::new();
             if ok {
                 for (m, bytes) in per.iter().enumerate() {
                     let mut pos = 0usize;
+                    let mut parts: Vec<Vec<u8>> = Vec::new();
                     for want in &s.resps[m] {
                         match decode_response(&bytes[pos.min(bytes.len())..]) {
-                            Ok((toks, used)) if match_leaves(&toks, want).is_ok() => pos += used,
+                            Ok((toks, used)) if match_leaves(&toks, want).is_ok() => {
+                                parts.push(bytes[pos..pos + used].to_vec());
+                                pos += used;
+                            }
                             _ => ok = false,
                         }
                     }
                     if pos != bytes.len() {
                         ok = false;
                     }
+                    split.push(parts);
                 }
             }
             if !ok {
@@ -284,7 +287,7 @@ fn shard(ctx: &Ctx, ifaces: &[&'static IfaceDesc], shard: usize, cases: u64) -> 
                 continue;
             }
             s.fits = per.iter().map(|b| b.len() <= n).collect();
-            s.ref_bytes = per;
+            s.ref_resps = split;
         }
         if s.fits.iter().any(|f| !*f) {
             acc.streams_with_oversized_answer += 1;
@@ -371,7 +374,7 @@ fn shard(ctx: &Ctx, ifaces: &[&'static IfaceDesc], shard: usize, cases: u64) -> 
 }
 
 fn canary() -> Result<(), String> {
-    let s = Stream { bytes: b"A?\nA\n".to_vec(), ends: vec![3, 5], resps: vec![vec![vec![Leaf::Int(7)]], vec![]], ref_bytes: vec![b"7\n".to_vec(), vec![]], fits: vec![true, true] };
+    let s = Stream { bytes: b"A?\nA\n".to_vec(), ends: vec![3, 5], resps: vec![vec![vec![Leaf::Int(7)]], vec![]], ref_resps: vec![vec![b"7\n".to_vec()], vec![]], fits: vec![true, true] };
     let mk = |log: Vec<Ev>| RunOut { log, ..Default::default() };
     let good = mk(vec![
         Ev::Read { cap: 16, n: 3 },
@@ -453,7 +456,7 @@ pub fn run(ctx: &Ctx) -> PropResult {
     let described: Vec<J> = vec![J::s("stream \"A?;B:C?\\nA\\n\" byte-wise, error token 1007 injected at transport call 7 (a flush)")];
     res.samples.extend(described.into_iter().take(1));
     res.assumptions = vec![
-        "messages contain no newline inside a payload; an answer that does not fit N may be replaced by arbitrary bytes for that message only".into(),
+        "messages contain no newline inside a payload; of a message whose answers do not fit N any answer may be missing (an error is reported instead), but only complete answers may be written".into(),
         "the due responses are the bytes of a reference execution through run, decoded and matched against the generator-side expectation; the write segmentation is free".into(),
     ];
     if fp.get("read").copied().unwrap_or(0) == 0 || fp.get("write").copied().unwrap_or(0) == 0 || fp.get("flush").copied().unwrap_or(0) == 0 || resp == 0 {
